@@ -110,8 +110,7 @@ def c17a(ck, prog):
           "" if ok else "a message is built as %r per line, then %r (other writes: %r); expected `data: ` line LF per line and one final LF" % (per_line, tail, other), how="per line: data: <line> LF; after the lines: LF")
     sp = [c for c in f.calls_to(r"^core::str::<impl str>::(split|lines|split_terminator|split_inclusive)")]
     sp = [c for c in sp if paths.root_call(f, c.args[0]) is not None and paths.root_call(f, c.args[0]).bb != -1]
-    sep = lit(f, sp[0], 1) if sp else None
-    sepc = (f.const_args(sp[0])[1] or {}).get("ch") if sp else None
+    sepc = ((f.const_args(sp[0]) + [None, None])[1] or {}).get("ch") if sp else None
     ok = len(sp) == 1 and sp[0].name == "split" and sepc == "\n"
     ck.ob(R, "line-split", ok, f.loc(sp[0].sp if sp else None), "" if ok else "messages are split into lines with %s(%r)" % ([c.name for c in sp], sepc), how="split('\\n')")
     # (3) chunk framing: [hex digits] CRLF message CRLF
